@@ -9,19 +9,19 @@ def hook_commits():
     return [l.split()[0] for l in out.splitlines() if "verif hook" in l]
 
 CLAIMED = {
-    "C06": dict(engine="chan-inline + chan-threads + file-e2e", design="5/C06",
+    "C06": dict(engine="chan-inline + chan-threads + tokio-receiver + file-e2e", design="5/C06",
         technique="deterministic simulation: seeded interleaving of sender operations with the real Receiver::exec under a scripted, fault-injecting processor; reference-queue oracle plus history checks",
         text="Seeded exploration (not exhaustive) of interleavings x processor outcome sequences of the real emit_batcher channel on a virtual clock. Every first-attempt batch must equal the reference queue's hand-off, every retry must equal the returned remainder, and the whole history is re-checked for exactly-once / FIFO / accounted truncation. Exploration is the right level: the property is over schedules and fault sequences, which only sampling at this scale (10^5..10^7 runs) reaches with the real code.",
         note="Trusted: the reference queue model, the reduction argument that receiver-local steps commute with sender critical sections (so interleaving at lock hooks and processor/wait/watcher seams is complete for inline mode), the hook placement (one before_lock per acquisition of the channel state lock)."),
-    "C07": dict(engine="chan-inline + chan-threads + file-e2e + otlp-delivery", design="5/C07",
+    "C07": dict(engine="chan-inline + chan-threads + tokio-receiver + file-e2e + otlp-delivery", design="5/C07",
         technique="deterministic simulation with fault injection; history check at the instant each flush reports completion",
         text="Seeded exploration of flush requests (when_flushed, async flush) racing with hand-off, retries, failures, panics and truncation; a post-hoc check over the recorded history demands that at the completion event of every flush no item sent before the request is queued, in flight or awaiting retry.",
         note="Trusted: event sequence numbers are assigned by the single simulator thread; flushes completing at or after an injected receiver teardown carry no obligation (statement: while the receiver is alive)."),
-    "C08": dict(engine="chan-inline + chan-threads + calling-contexts + file-e2e + otlp-delivery", design="5/C08",
+    "C08": dict(engine="chan-inline + chan-threads + calling-contexts + tokio-receiver + file-e2e + otlp-delivery", design="5/C08",
         technique="deterministic simulation with fault injection; bounded-liveness and exactly-once-callback oracles on a virtual clock",
         text="Seeded exploration of processor outcome scripts (ok, permanent failure, retry with any remainder, panic in call or future, latency), panicking watchers, early sender drop; oracles: bounded attempts, non-decreasing bounded back-off reset per batch, callbacks exactly once, receiver drains and terminates within a step budget once the sender is dropped.",
         note="Trusted: step budget (2500 controller steps after close) is generous relative to the retry budget; retuned constants do not alarm (bounds are 64 attempts / 5 min)."),
-    "C09": dict(engine="chan-inline + chan-threads + calling-contexts + file-e2e + otlp-delivery", design="5/C09",
+    "C09": dict(engine="chan-inline + chan-threads + calling-contexts + tokio-receiver + file-e2e + otlp-delivery", design="5/C09",
         technique="deterministic simulation; reference-queue oracle compared with a state snapshot after every operation; lock-held-at-seam detector",
         text="Seeded exploration with small capacities, stalled / absent receivers and all send variants; after every operation the real queue length (snapshot hook and queue_length metric) must equal the reference queue and never exceed capacity; overflow keeps the newest item and counts once; try_send / async send hand the same item back, and only at or after expiry.",
         note="Trusted: verif_snapshot() reads the same fields the channel uses; virtual-time expiry comparisons are exact."),
@@ -144,8 +144,10 @@ def main():
              "kind_free_text": "real sync.rs entry points on real OS threads under a baton-passing scheduler with virtual time, spurious wake-ups and early timers"},
             {"name": "calling-contexts", "path": "/verif/sim/src/ctx_probes.rs", "serves_properties": ["C08", "C09"],
              "kind_free_text": "deterministic probes of the blocking entry points' immediate paths from ten calling contexts (plain thread, tokio current-thread, multi-thread block_on / worker / spawn_blocking, LocalSet on either flavour, nested block_in_place, Runtime::enter)"},
+            {"name": "tokio-receiver", "path": "/verif/sim/src/tokio_recv.rs", "serves_properties": ["C06", "C07", "C08", "C09"],
+             "kind_free_text": "probes on real tokio threads (not scheduled by the simulator; only schedule-independent rules are judged): a receiver started with emit_batcher::tokio::spawn against a scripted processor, fed and flushed through send / tokio::send / blocking_send / tokio::flush / blocking_flush from plain threads and tokio runtimes; exactly-once in order, retry content, flush meaning, termination on sender drop"},
             {"name": "file-e2e", "path": "/verif/sim/src/file_e2e.rs", "serves_properties": ["C06", "C07", "C08", "C09", "C10", "C11"],
-             "kind_free_text": "real FileSet(s) (JSON writer, channel, worker thread, blocking_flush, And) over the simulated filesystem in thread mode with stalls and retryable faults"},
+             "kind_free_text": "real FileSet(s) built by the production FileSetBuilder::spawn (JSON or custom writer, channel, worker thread, blocking_flush, And) over the simulated filesystem, clock and rng injected through the spawn hook, in thread mode with stalls and retryable faults"},
             {"name": "otlp-delivery", "path": "/verif/sim/src/otlp_sim.rs", "serves_properties": ["C12", "C07", "C08", "C09"],
              "kind_free_text": "real Otlp emitter over SimStream pipes against a scripted HTTP/1.1 + h2 collector on a simulated executor"},
             {"name": "otlp-routing", "path": "/verif/sim/src/otlp_sim.rs", "serves_properties": ["C14"],
